@@ -119,7 +119,7 @@ def regroup(toks):
 # ----------------------------------------------------------------------------- generic
 
 RULES = {
-    'C12': 'exhaustive: all 36 ordered pairs of outputs over Result<u8,u8> with payloads {0,1,2} x the five built-in output checkers (through the generic trait impls), plus EqualsChecker/AlwaysConsistent on a non-Result type; each line compared with the model and with the documented relation',
+    'C12': 'exhaustive over five payload families: all 36 ordered pairs of outputs over Result<u8,u8> with payloads {0,1,2}, all pairs over Result<(),u8>, Result<u8,()>, Result<(),()> (zero-sized payloads) and Result<String,String> (heap payloads) x the five built-in output checkers (through the generic trait impls), plus EqualsChecker/AlwaysConsistent on a non-Result type; each line compared with the model and with the documented relation',
 }
 ASSUMPTIONS = {
     'C12': ['payload equality of the checked type is its Eq impl (modelled as a decidable equality)', 'the OutputCheckerObj proxy is crate-private and not probed'],
@@ -158,8 +158,8 @@ def checkers_oracle(toks, lines):
             if (bits[0] == '1') != (a != c) or bits[1] != '0':
                 return 'EqualsChecker/AlwaysConsistent on integers: %s vs stamp of %s gives %s' % (a, c, bits)
             n += 1
-    if n != 36 + 16:
-        return 'probe printed %d lines instead of 52' % n
+    if n != 36 + 9 + 9 + 4 + 16 + 16:
+        return 'probe printed %d lines instead of 90' % n
     return None
 
 # ----------------------------------------------------------------------------- map resource (C14)
@@ -169,9 +169,21 @@ MAP_STATES = [1001, 1002, 1003, 11, 12]
 def gen_map_case(rng):
     toks = []
     slots = 0
+    objs = rng.random() < 0.4
     for _ in range(rng.randint(3, 40)):
         r = rng.random()
         kt = rng.randint(1, 3); k = rng.randint(0, 3)
+        if objs and rng.random() < 0.5:
+            # the object-valued maps: MapKeyToObj<u32> (4) and MapKeyObjToObj (5; keys 0/1 are unit structs of different types);
+            # values are type*100 + payload: two types with equal fields, two zero-sized types
+            kt = rng.choice([4, 5]); v = rng.choice([0, 1, 2, 100, 101, 102, 200, 300, 200, 300])
+            if r < 0.30: toks += ['w', str(kt), str(k), str(v)]
+            elif r < 0.38: toks += ['x', str(kt), str(k)]
+            elif r < 0.48: toks += ['i', str(kt), str(k), str(v)]
+            elif r < 0.65: toks += ['r', str(kt), str(k)]
+            elif r < 0.82: toks += ['t', str(rng.randint(0, 3)), str(kt), str(k)]
+            else: toks += ['c', str(rng.randint(0, 3))]
+            continue
         if r < 0.22: toks += ['w', str(kt), str(k), str(rng.randint(0, 9))]
         elif r < 0.30: toks += ['x', str(kt), str(k)]
         elif r < 0.40: toks += ['i', str(kt), str(k), str(rng.randint(0, 9))]
@@ -195,7 +207,10 @@ def gen_map_cases(rng, tier):
               "t 0 1 5 w 1 5 7 c 0 x 1 5 c 0".split(),
               "w 1 1 1 w 2 1 2 w 3 1 3 r 1 1 r 2 1 r 3 1 d 2 1003 r 1 1 r 2 1 r 3 1".split(),
               "s 1 11 4 g 1 11 r 1 0 g 1 11 g 1 1001".split(),
-              "S 1 1001 4 g 1 1001 G 1 1001 r 1 0 M 1 1001 B 1 1001 D 1 1001".split()]       # the type-erased route, then the typed ones
+              "S 1 1001 4 g 1 1001 G 1 1001 r 1 0 M 1 1001 B 1 1001 D 1 1001".split(),
+              # object values: zero-sized values of different types, equal fields in different types; unit-struct keys of different types
+              "w 4 0 200 t 0 4 0 w 4 0 300 c 0 r 4 0 w 4 1 5 t 1 4 1 w 4 1 105 c 1".split(),
+              "w 5 0 7 r 5 1 w 5 1 8 r 5 0 r 5 1 t 0 5 0 x 5 1 c 0 r 5 0".split()]       # the type-erased route, then the typed ones
     return corpus + [gen_map_case(rng) for _ in range(n)]
 
 
@@ -256,7 +271,7 @@ def map_oracle(toks, lines):
         li += 1
     return None
 
-RULES['C14'] = 'random + corpus sequences of typed state accesses (get/set/get_or_set_default with matching and non-matching state types), map reads, writer insert/remove, direct inserts, three-route stamps and checks against kept stamps, over three key types; run on the real TypeToAnyMap/map resource (misc_probe map) and on the extracted model; compared line by line with each other and with a python dictionary specification'
+RULES['C14'] = 'random + corpus sequences of typed state accesses (get/set/get_or_set_default with matching and non-matching state types), map reads, writer insert/remove, direct inserts, three-route stamps and checks against kept stamps, over three typed key types and the two object-valued maps (MapKeyToObj, MapKeyObjToObj: values of different concrete types with equal fields, zero-sized values and unit-struct keys of different types); run on the real TypeToAnyMap/map resource (misc_probe map) and on the extracted model; compared line by line with each other and with a python dictionary specification'
 ASSUMPTIONS['C14'] = ['TypeId equality is modelled by equality of type codes; HashMap iteration order is canonicalised by sorting']
 RULES['C12'] = RULES['C12']
 
